@@ -2,6 +2,7 @@ package main
 
 import (
 	"fmt"
+	"go/token"
 	"go/types"
 	"strings"
 
@@ -353,9 +354,51 @@ func ruleScatterOneTargetPerPeer(c *Ctx) {
 		"the excluded set starts empty and nothing re-tests the chosen store: an early peer may take the store of a later peer which then stays, both share one key of the store-keyed target map and the operator drops a replica")
 }
 
+// ruleScatterCandidatesFiltered: every store that becomes a scatter candidate
+// passed filter.Target with the scatterer's filters — on every path, also on
+// the "all stores equally loaded" shortcut.
+func ruleScatterCandidatesFiltered(c *Ctx) {
+	P := c.P
+	rule := c.Prop + "/target-filter-sets"
+	fn := P.Method("server/schedule", "RegionScatterer", "selectCandidates")
+	target := F(P.Func("server/schedule/filter", "Target"))
+	getID := F(P.Method("server/core", "StoreInfo", "GetID"))
+	passed := guardCall("filter.Target(store) == true", true, callMatcher(target))
+	passed.invalidate = func(x ssa.Instruction) bool {
+		// the next store of the loop: what held for the previous one is gone
+		u, ok := x.(*ssa.UnOp)
+		if !ok || u.Op != token.MUL {
+			return false
+		}
+		_, isIdx := u.X.(*ssa.IndexAddr)
+		return isIdx
+	}
+	n := c.mustPrecede(rule, fn, "store added to the scatter candidates", func(x ssa.Instruction) bool {
+		cl, ok := x.(*ssa.Call)
+		if !ok {
+			return false
+		}
+		b, isB := cl.Call.Value.(*ssa.Builtin)
+		if !isB || b.Name() != "append" || len(cl.Call.Args) != 2 {
+			return false
+		}
+		elems, _ := sliceElems(cl.Call.Args[1], map[ssa.Value]bool{})
+		for _, e := range elems {
+			if valueIsCallTo(e, getID) {
+				return true
+			}
+		}
+		return false
+	}, []Ev{passed}, all, "a store becomes a candidate only after filter.Target accepted it")
+	if n == 0 {
+		c.Undec(rule, "candidate appends in "+fnName(fn), "at least one", P.pos(fn.Pos()), "")
+	}
+}
+
 func init() {
 	register("C11", "Scatter and balance moves preserve a region's replica count and roles", func(c *Ctx) {
-		c.Group("C11/target-filter-sets", "every target selection of the schedulers and the scatterer passes an effective store-state filter; region-target selections exclude the region's stores (as targets) and keep placement; leader-target selections accept leaders", func() { ruleSchedulerTargetSets(c) })
+		c.Group("C11/target-filter-sets", "every target selection of the schedulers and the scatterer passes an effective store-state filter; region-target selections exclude the region's stores (as targets) and keep placement; leader-target selections accept leaders", func() { ruleSchedulerTargetSets(c); ruleScatterCandidatesFiltered(c) })
+		c.Group("C11/leader-candidates", "(shared with C08) the operator builder forces a leader onto a store that does not accept leaders only where explicitly asked to", func() { ruleForceFlagOwnership(c) })
 		c.Group("C11/role-preserved", "a moved peer keeps its role (copied from the replaced peer found by store regardless of role)", func() { ruleRolePreserved(c) })
 		c.Group("C11/leader-to-follower", "leadership is transferred only to stores holding a follower of the region", func() { ruleLeaderTransferTargets(c) })
 		c.Group("C11/scatter-one-target-per-peer", "the scatterer never lets two origin peers end on one store", func() { ruleScatterOneTargetPerPeer(c) })
